@@ -13,8 +13,8 @@ Classes of programs
           {b, u8, i8, ..., u64, i64} as a two-column table sorted by EITHER column in one context (two parameterisations
           on one argument type) and re-sorted (nested), plus random tables of 1-4 columns of mixed scalar types and row
           shapes with the key in any position; 1-5 rows, duplicate keys, extreme values;
-  mixed   tables whose columns are results of comparisons / Min / Max (bit key = comparison result), sorted, a column
-          taken out again and compared;
+  mixed   tables whose columns are results of comparisons / Min / Max / Mux of integers (bit key = comparison result,
+          integer key = Mux result), sorted, a column taken out again, compared and clipped;
   reject  a few programs the documentation does not admit (signed comparison of 1-bit strings, Clip2K with k = w-1,
           unknown sort key, two-dimensional key) -- the judge accepts a rejection only where the definition is ErrT.
 """
@@ -244,15 +244,16 @@ def mixed_program(rng, w, n):
     p = Prog("mixed")
     x, y = p.inp(arr("b", [n, w])), p.inp(arr("b", [n, w]))
     vst = rng.choice(INT_ST)
-    v = p.inp(arr(vst, [n]))
+    v, v2 = p.inp(arr(vst, [n])), p.inp(arr(vst, rng.choice([[n], [1], []])))
     sg = rng.randint(0, 1) if w >= 2 else 0
     g = p.op(rng.choice(CMPS), [x, y], shape=[n], sg=sg)
     m = p.op(rng.choice(["Min", "Max"]), [x, y], shape=[n, w], sg=sg)
-    order = [("k", g), ("m", m), ("v", v)]
+    u = p.op("Mux", [g, v, v2])                                      # integer choices selected by a comparison result
+    order = [("k", g), ("m", m), ("v", v), ("u", u)]
     rng.shuffle(order)
     t = p.nt([c[0] for c in order], [c[1] for c in order])
     s1 = p.op("SortByIntegerKey", [t], key="k")
-    s2 = p.op("SortByIntegerKey", [t], key="v")
+    s2 = p.op("SortByIntegerKey", [t], key=rng.choice(["v", "u"]))
     c = p.get("m", rng.choice([s1, s2]), shape=[n, w])
     p.op(rng.choice(CMPS), [c, x], shape=[n], sg=sg)
     if w >= 2:
@@ -265,7 +266,8 @@ def mixed_inputs(rng, p, w, n, vst, samples):
     for _ in range(samples):
         xs = bit_rows(rng, w, n)
         ys = bit_rows(rng, w, n, like=xs)
-        out.append([sum(xs, []), sum(ys, []), column_values(rng, arr(vst, [n]), few=True)])
+        out.append([sum(xs, []), sum(ys, []), column_values(rng, arr(vst, [n]), few=True),
+                    column_values(rng, p.in_types[3], few=True)])
     return out
 
 
